@@ -70,10 +70,20 @@ def seq_container(ctx, driver, trace_module, model_checks, depth, shards=8, extr
     vlib.probe_known_findings(ctx, trace_module, opn)
     out = os.path.join(ctx.scratch, "t", driver)
     d = depth[ctx.tier]
-    if procs:
-        summ = ctx.drive_procs(driver, ["-out", out, "-depth", d] + list(extra_args), shards)
-    else:
-        summ = ctx.drive(driver, ["-out", out, "-depth", d, "-shards", shards] + list(extra_args))
+    try:
+        if procs:
+            summ = ctx.drive_procs(driver, ["-out", out, "-depth", d] + list(extra_args), shards)
+        else:
+            summ = ctx.drive(driver, ["-out", out, "-depth", d, "-shards", shards] + list(extra_args))
+    except vlib.Crash as c:
+        # the real code killed the process (Go fatal error) on these paths, twice, each alone in a fresh process
+        for variant, path, why in c.found:
+            rp = vlib.write_replay(ctx, driver, variant, trace_module, path, dict(res=dict(p=True, fatal=why), proj={}),
+                                   note="the process executing this path dies: " + why)
+            log("the code under test kills the process on path=%s (%s)" % (vlib.json.dumps(path, separators=(",", ":"))[:600], why))
+            vlib.violation(ctx, rp)
+        vlib.write_evidence(ctx, exhaustive=False)
+        return len(c.found)
     if summ["nodes"] < 10:
         raise Infra("driver %s recorded only %d nodes" % (driver, summ["nodes"]))
     ctx.samples = [vlib.json.loads(s) if isinstance(s, str) else s for s in summ["samples"]]
@@ -158,6 +168,10 @@ def c10(ctx):
 @handler("C07")
 def c07(ctx):
     def after(ctx, files):
+        # design level: map + circular list with sentinel, pointer by pointer; refines LRU.tla; the repaired
+        # RemoveYoungest defect (unlinking the oldest node) breaks the structure invariant
+        ctx.model_check("LRUListMC", "LRUListMC.cfg", workers=8, xmx="10g")
+        ctx.model_check("LRUListMC", "LRUListMC_kf.cfg", expect_violation="Structure")
         return vlib.binding_a(ctx, "LRUGen", ["LRUGen_1.cfg", "LRUGen_2.cfg", "LRUGen_3.cfg"], "lru", "tree", "LRUTrace")
     return seq_container(ctx, "lru", "LRUTrace", [("LRUMC", "LRUMC.cfg")],
                          depth=dict(quick=4, thorough=5), shards=12, after=after)
@@ -165,8 +179,13 @@ def c07(ctx):
 
 @handler("C09")
 def c09(ctx):
+    def after(ctx, files):
+        # design level: the ternary search tree and its recursive algorithms as written implement the map of
+        # Trie.tla for every put sequence over 12 keys; without the isValid test (the defect repaired by a409422) they do not
+        ctx.model_check("TSTMC", "TSTMC%s.cfg" % ("_deep" if ctx.tier == "thorough" else ""), workers=8, xmx="10g")
+        ctx.model_check("TSTMC", "TSTMC_kf.cfg", expect_violation="IsMap")
     return seq_container(ctx, "trie", "TrieTrace", [("TrieMC", "TrieMC.cfg")],
-                         depth=dict(quick=4, thorough=5), shards=12,
+                         depth=dict(quick=4, thorough=5), shards=12, after=after,
                          variant_of=lambda f: "lin" if ".lin." in f else ("abc" if ".abc." in f else "tree"))
 
 
